@@ -15,7 +15,7 @@ MANIFEST = {
             '{FALSE,TRUE} and their typed-block mixes with every lookup value inside, between, below, above and of another type, '
             'and in exact mode on every vector of length <= 4 over {1,2,"a","A","b*",TRUE,blank} (keys, absent values, wildcard patterns ? * ~*, the word "empty"); INDEX, VLOOKUP, HLOOKUP and LOOKUP '
             'on every table shape up to 4x4 (6x6 thorough) with every row/column index from 0 to size+1; COUNTIF/SUMIF/AVERAGEIF on every '
-            'range vector of length 3 over a typed pool with every operator x operand-kind criterion.  Nothing is sampled.',
+            'range vector of length 3 over a typed pool with every operator x operand-kind criterion.  Nothing is sampled.' ' Later additions: arrays of criteria, escaped next to live wild cards, error values among exact-match keys, selections that are all zero or cancel out (a blank criterion against zeros is not judged).',
     'note': 'Trusted: ref/lookup.py (audited against the Excel-cached values of the LOOKUP/MATH/STATISTICAL sheets at the start of every run). '
             'Approximate modes on unsorted data, blanks in sorted vectors, errors inside vectors and numeric text inside criteria ranges are not decided.',
 }
